@@ -49,3 +49,28 @@ Proof. vm_compute. reflexivity. Qed.
 (* non-vacuity *)
 Example C07_example : d_oor (@init nat 3) (AddEdge 3 0 0 true) = true /\ m_oor (dm_init 2) (MSet 0 7 1%Z) = true.
 Proof. vm_compute. auto. Qed.
+
+(* ---- path searches and subgraph extraction (the graph argument is const: nothing can change) ---- *)
+From BG Require Import PathsModel TopologyModel.
+Theorem C07_path_searches_reject : forall (g : adjl) (wg : Dj.wadj) (s t : nat) fuel once cs,
+  (length g <= s -> bfs_single true g s = Raise OutOfRange /\ bfs_all true once fuel g s = Raise OutOfRange /\
+                    geodesics_from_vertex true g s = Raise OutOfRange /\ all_geodesics_from_vertex true once fuel g s = Raise OutOfRange) /\
+  (length g <= s \/ length g <= t -> find_geodesics true g s t = Raise OutOfRange /\ find_all_geodesics true once fuel g s t = Raise OutOfRange) /\
+  (length wg <= s -> dijkstra true wg s cs = Raise OutOfRange).
+Proof.
+  intros g wg s t fuel once cs.
+  assert (B : forall n v, n <= v -> Nat.ltb v n = false) by (intros; apply Nat.ltb_ge; auto).
+  split; [|split].
+  - intros H. unfold geodesics_from_vertex, all_geodesics_from_vertex, bfs_single, bfs_all, checked. cbn [forallb]. rewrite (B _ _ H). cbn. auto.
+  - intros H. unfold find_geodesics, find_all_geodesics, checked. cbn [forallb]. destruct H as [H|H]; rewrite (B _ _ H); cbn; rewrite ?andb_false_r; auto.
+  - intros H. unfold dijkstra, checked. cbn [forallb]. rewrite (B _ _ H). reflexivity.
+Qed.
+Print Assumptions C07_path_searches_reject.
+Theorem C07_subgraph_rejects : forall (L : Type) (ldef : L) hs und (g : @dgraph L) (v : nat), size g <= v ->
+  subgraph ldef hs repaired und g [v] = Raise OutOfRange /\ subgraph_remap ldef hs repaired und g [v] = Raise OutOfRange.
+Proof. intros L ldef hs und g v H. unfold subgraph, subgraph_remap, sub_loop, in_range. cbn [fold_left obind].
+  assert (Nat.ltb v (size g) = false) as -> by (apply Nat.ltb_ge; exact H). auto. Qed.
+Print Assumptions C07_subgraph_rejects.
+(* the pinned commit indexed the distance vector with an unchecked source *)
+Example C07_refuted_on_pinned_paths : bfs_single false [[1]; []] 7 = Undef IndexOOB /\ find_geodesics false [[1]; []] 7 7 = Undef IndexOOB.
+Proof. vm_compute. auto. Qed.
